@@ -27,16 +27,28 @@ structure Flight where
   viaLoop : Bool := false
 deriving Repr, DecidableEq
 
+/-- a client-side `Subscription`: what `handle_notification` / `on_notification` / `next_publish_time`
+look at -/
+structure SubInfo where
+  id : Nat
+  /-- `publishing_enabled` (constructor argument, `set_publishing_mode`) -/
+  enabled : Bool
+  /-- a monitored item with the client handle the harness' data notifications carry is present -/
+  hasItem : Bool
+deriving Repr, DecidableEq
+
 structure State where
   /-- `SubscriptionState::acknowledgements` -/
   pending : List Ack
-  /-- keys of `SubscriptionState::subscriptions` (sorted, duplicate free) -/
-  subs : List Nat
+  /-- `SubscriptionState::subscriptions` (sorted by id, duplicate free) -/
+  subs : List SubInfo
   /-- publish futures in flight, oldest first -/
   flights : List Flight
   nextId : Nat
   /-- `AsyncSecureChannel::request_send` is `Some` -/
   connected : Bool
+  /-- how often the subscription callback received a data value (`on_data_value`) -/
+  callbacks : Nat := 0
   /-- `max_inflight_publish` of the subscription event loop -/
   maxPublish : Nat := 2
   /-- `is_waiting_for_response` of the event loop (set by BadTooManyPublishRequests) -/
@@ -128,6 +140,17 @@ deriving Repr, DecidableEq
 acknowledgement of the received message (whether or not the subscription is known) and
 `publish()` returns without touching what it took.  `ka` = the message is a keep-alive
 (`notification_data` is `None` or empty). -/
+def findSub : List SubInfo → Nat → Option SubInfo
+  | [], _ => none
+  | x :: xs, id => if x.id == id then some x else findSub xs id
+
+/-- `Subscription::on_notification`: a data change is passed to the callback when the subscription
+exists and knows the item's client handle — whether or not its publishing is enabled -/
+def delivers (s : State) (sub : Nat) (ka : Bool) : Bool :=
+  !ka && (match findSub s.subs sub with
+          | some x => x.hasItem
+          | none => false)
+
 def completeWith (src : Src) (s : State) (id sub seq : Nat) (more ka : Bool) : Out × State :=
   match findFlight s.flights id with
   | none => (.badOp, s)
@@ -135,8 +158,11 @@ def completeWith (src : Src) (s : State) (id sub seq : Nat) (more ka : Bool) : O
     let acked : Bool := match src with
       | .pinned => true
       | .fixed => !ka
+    -- the acknowledgement is queued first, for every message that carries data: for a known, an unknown,
+    -- a deleted, an enabled and a disabled subscription alike
     (.retOk more, { s with flights := removeFlight s.flights id,
-                           pending := if acked then s.pending ++ [(sub, seq)] else s.pending })
+                           pending := if acked then s.pending ++ [(sub, seq)] else s.pending,
+                           callbacks := if delivers s sub ka then s.callbacks + 1 else s.callbacks })
 
 /-- the source as it is now -/
 def complete := completeWith .fixed
@@ -148,17 +174,27 @@ def fail (s : State) (id : Nat) (k : FailKind) : Out × State :=
   | none => (.badOp, s)
   | some f => (.retErr k.status, requeue { s with flights := removeFlight s.flights id } f.taken)
 
-def insertSorted (x : Nat) : List Nat → List Nat
+/-- `HashMap::insert`: a subscription with the same id is replaced -/
+def insertSorted (x : SubInfo) : List SubInfo → List SubInfo
   | [] => [x]
-  | y :: ys => if x < y then x :: y :: ys else if x = y then y :: ys else y :: insertSorted x ys
+  | y :: ys => if x.id < y.id then x :: y :: ys else if x.id = y.id then x :: ys else y :: insertSorted x ys
+
+def updateSub (f : SubInfo → SubInfo) (id : Nat) : List SubInfo → List SubInfo
+  | [] => []
+  | y :: ys => if y.id == id then f y :: ys else y :: updateSub f id ys
 
 inductive Op where
   | start
   | complete (id sub seq : Nat) (more ka : Bool)
   | fail (id : Nat) (k : FailKind)
   | setConnected (c : Bool)
-  | addSub (id : Nat)
+  /-- `add_subscription(Subscription::new(id, …, publishing_enabled, …))` -/
+  | addSub (id : Nat) (enabled : Bool)
   | delSub (id : Nat)
+  /-- `set_publishing_mode(&[id], enabled)` -/
+  | setPub (id : Nat) (enabled : Bool)
+  /-- `insert_monitored_items` / `delete_monitored_items` of the item the data notifications refer to -/
+  | setItem (id : Nat) (present : Bool)
 deriving Repr, DecidableEq
 
 def stepWith (src : Src) (s : State) : Op → Out × State
@@ -166,8 +202,10 @@ def stepWith (src : Src) (s : State) : Op → Out × State
   | .complete id sub seq more ka => completeWith src s id sub seq more ka
   | .fail id k => fail s id k
   | .setConnected c => (.unit, { s with connected := c })
-  | .addSub id => (.unit, { s with subs := insertSorted id s.subs })
-  | .delSub id => (.unit, { s with subs := s.subs.filter (· != id) })
+  | .addSub id e => (.unit, { s with subs := insertSorted ⟨id, e, false⟩ s.subs })
+  | .delSub id => (.unit, { s with subs := s.subs.filter (fun x => x.id != id) })
+  | .setPub id e => (.unit, { s with subs := updateSub (fun x => { x with enabled := e }) id s.subs })
+  | .setItem id b => (.unit, { s with subs := updateSub (fun x => { x with hasItem := b }) id s.subs })
 
 def step := stepWith .fixed
 
@@ -209,8 +247,10 @@ def loopLen (s : State) : Nat := (s.flights.filter (fun f => f.viaLoop)).length
 def resetTime (s : State) : State := { s with aged := false, cachedDue := false }
 
 /-- the stream yielded an item; the next turn starts with `next = next_publish_time(false)`, which is
-`Some(last_publish + interval)` when there is a subscription -/
-def newTurn (s : State) : State := { s with cachedDue := s.aged && !s.subs.isEmpty }
+`Some(last_publish + interval)` when a subscription has publishing enabled; with only disabled ones it
+is `last_publish + interval · lifetime_count` (the keep-alive timeout), which the harness' `age`
+does not reach; `None` without subscriptions -/
+def newTurn (s : State) : State := { s with cachedDue := s.aged && s.subs.any (·.enabled) }
 
 def yielded : List Ev → Bool
   | [] => false
